@@ -110,6 +110,8 @@ func (e *Engine) evalSpec(x *SExpr, env *SpecEnv) Value {
 	case "float":
 		r, _ := new(big.Rat).SetString(x.Val)
 		return VTerm{T: mkRat(r), Typ: types.Typ[types.Float64]}
+	case "str":
+		return VTerm{T: mkConst("str_"+sanitize(x.Val), SStr), Typ: types.Typ[types.String]}
 	case "ident":
 		switch x.Val {
 		case "true":
@@ -467,6 +469,36 @@ func (e *Engine) evalSpecCall(x *SExpr, env *SpecEnv) Value {
 		default:
 			return VTerm{T: e.closed(env.st, s.ID), Typ: boolT}
 		}
+	case "col", "colnum", "colstr":
+		// the value stream behind a report column object
+		v := e.evalSpec(args[0], env)
+		vt, ok := v.(VTerm)
+		if !ok || vt.T.Sort != SRef {
+			unsup("spec: %s of %T", name, v)
+		}
+		var el types.Type = types.Typ[types.Float64]
+		if name == "colstr" {
+			el = types.Typ[types.String]
+		}
+		// colstream(x) is by definition the `values` field of the column object; where the concrete type is known
+		// (inside the constructors) the field itself is read
+		if dt, ok := e.dynType[vt.T.String()]; ok {
+			if fv, ok2 := e.readField(env.st, VTerm{T: vt.T, Typ: dt}, "values").(VStream); ok2 {
+				return VStream{ID: fv.ID, Elem: el}
+			}
+		}
+		return VStream{ID: mkApp("colstream", SInt, vt.T), Elem: el}
+	case "arg":
+		// arg(Callee_Name, i, j): j-th argument of the i-th contract call of that callee
+		if args[0].Kind != "ident" || len(args) != 3 {
+			unsup("spec: arg(Callee, i, j)")
+		}
+		as := e.callArgs[args[0].Val]
+		i, j := atoi(args[1].Val), atoi(args[2].Val)
+		if i >= len(as) || j >= len(as[i]) {
+			unsup("spec: arg(%s,%d,%d): no such call", args[0].Val, i, j)
+		}
+		return as[i][j]
 	case "res":
 		// res(Callee_Name[, i[, j]]): result of the i-th contract call of that callee in the function under verification
 		if args[0].Kind != "ident" {
